@@ -111,8 +111,16 @@ class Run:
                 event = ctx.Event() if cfg.get('end') == 'event' else None
                 init = {None: None, 'reset': tasks.init_reset_signals,
                         'own': tasks.init_own_handlers}[cfg.get('init')]
+                mem_after = cfg.get('mem_after')
+                if mem_after is not None:
+                    # resident size as the worker reads it after each job:
+                    # above the limit from the mem_after-th job on
+                    bp.mem_rss = lambda: (
+                        5000 if len(tasks.INVOKED) >= mem_after else 10)
                 w = bp.Worker(inq, outq, synq, init, (), cfg.get('quota'),
-                              event, on_exit_cb, True, True, None, counter)
+                              event, on_exit_cb, True, True,
+                              1000 if mem_after is not None else None,
+                              counter)
                 proc = ctx.Process(target=w)
                 proc.daemon = True
                 proc.start()
@@ -148,6 +156,7 @@ class Run:
                            loop_started=self.loop_started,
                            loop_ended=self.loop_ended)
             finally:
+                bp.mem_rss = _REAL_MEM_RSS
                 vproc.launcher = None
                 vctx.reset_billiard_globals()
         return res
@@ -268,6 +277,9 @@ class Run:
                 sum(1 for m in ms if m and m[0] == READY), nfed)
 
 
+_REAL_MEM_RSS = bp.mem_rss
+
+
 class PollQueue(bqueues.SimpleQueue):
     """A queue object without the get_payload short cut (allowed by
     Worker._make_recv_method): the worker polls it with its one-second
@@ -366,10 +378,14 @@ def spec_check(cfg, r, inject):
                         r['points']))
         n_ready = sum(readies.values())
         done_quota = quota is not None and executed >= quota
+        mem_after = cfg.get('mem_after')
+        if mem_after is not None and executed >= mem_after:
+            done_quota = True            # left because of the memory limit
         if done_quota:
             if r['status'] != bp.EX_RECYCLE:
-                return ('worker reached its quota of %d and exited with %r '
-                        'instead of the recycle status' % (quota, r['status']))
+                return ('worker reached its quota of %r (memory limit after '
+                        '%r jobs) and exited with %r instead of the recycle '
+                        'status' % (quota, mem_after, r['status']))
             if cfg.get('consume', 'prompt') == 'never':
                 if r['guard_sleeps'] < bp.GUARANTEE_MESSAGE_CONSUMPTION_RETRY_LIMIT:
                     return ('worker exited after %d waits although its '
@@ -391,6 +407,8 @@ def spec_check(cfg, r, inject):
         want, n = [], 0
         for k, name in enumerate(cfg['tasks']):
             if quota is not None and n >= quota:
+                break
+            if cfg.get('mem_after') is not None and n >= cfg['mem_after']:
                 break
             if synack and k < len(syn) and syn[k] == 'nack':
                 continue                 # refused: not run, not counted
@@ -550,6 +568,16 @@ def configs(tier):
     for name in ('unpicklable_os', 'unpicklable_value'):
         for quota in (None, 1):
             out.append(dict(tasks=[name, 'ok'], quota=quota))
+    # max_memory_per_child: the limit is exceeded after the k-th job, with
+    # and without a task quota, prompt / late / missing consumption
+    for quota in (None, 3):
+        for k in (1, 2):
+            out.append(dict(tasks=['ok', 'raise', 'ok'], quota=quota,
+                            mem_after=k))
+    out.append(dict(tasks=['ok', 'ok'], quota=None, mem_after=1,
+                    consume='late'))
+    out.append(dict(tasks=['ok', 'ok'], quota=3, mem_after=1,
+                    consume='never'))
     # an application initializer that touches signal dispositions: the
     # worker's own handlers are installed after it and still decide
     for init in ('reset', 'own'):
